@@ -22,7 +22,7 @@ func checkC08(w *World, r *Report) {
 	r.Rule("C08.R1", "the stop function poisons every child and waits for it before the parent's inbox stops, before it is unregistered, before its Stopped and before its stop context is cancelled", 3)
 	r.Rule("C08.R2", "a stopping child removes itself from its parent's children, whenever it has a parent", 1)
 	r.Rule("C08.R3", "SpawnChild links the child to the parent before it is started, records it in children afterwards, and derives its kind from the parent's id", 3)
-	r.Rule("C08.R4", "Parent() names the spawning context's pid; Children()/Child() read only the children map; only SpawnChild and the stop function write it", 4)
+	r.Rule("C08.R4", "Parent() names the spawning context's pid; Children()/Child() read only the children map; only SpawnChild and the stop function write it; only SpawnChild sets the parent link", 5)
 	r.Rule("C08.R5", "pill linearity (a parent waits on the pill it sends to each child)", 2)
 	pr := w.findProcRoles()
 	if pr.fail(r, "C08.R1") {
@@ -245,6 +245,25 @@ func checkC08(w *World, r *Report) {
 			}
 		}
 		r.Check(len(writers) == 0, "C08.R4", "Context.children:writers", "only SpawnChild and the stop function change a context's children", w.fnPos(sc), fmt.Sprintf("other writers: %v", writers))
+		// the parent link is set once, by SpawnChild (or in a fresh context), and never cleared or changed
+		var pw []string
+		for _, fn := range w.Funcs {
+			if !w.isLib(fn) || fnPkgPath(fn) != modPath+"/actor" {
+				continue
+			}
+			for _, in := range w.insOf(fn) {
+				if st, ok := in.(*ssa.Store); ok {
+					if fa, ok := st.Addr.(*ssa.FieldAddr); ok && isFieldOf(fa, ctxT, "parentCtx") {
+						if _, fresh := fa.X.(*ssa.Alloc); fresh || fn == sc {
+							continue
+						}
+						pw = append(pw, fname(fn)+" at "+w.pos(st.Pos()))
+					}
+				}
+			}
+		}
+		r.Check(len(pw) == 0, "C08.R4", "Context.parentCtx:writers", "a context's parent link is written only by SpawnChild", w.fnPos(sc),
+			fmt.Sprintf("also written by %v: Parent() changes during the actor's life (e.g. is nil while it handles Stopped)", pw))
 	}
 	checkContextFixed(w, r, "C08.R4")
 	checkCancelDeferred(w, r, "C08.R1")
